@@ -239,14 +239,20 @@ LINE_CORPUS = [
     [0, 3, 1, 2, 1, 2, 1, 3, 0], [2, 0, 2, 0, 2, 0], [0, 2, 0, 2, 0, 2], [-3, 7, -3, 7, -4], [10, 0, 10, 1, 9, 2, 8, 3, 11],
 ]
 CMPS = ["lt", "lt2", "gt", "k2", "k3"]
+WIDE = 1 << 26
 TYPES = ["d", "l", "f"]
 
 
 def line_cases(rng, tier):
     out = []
 
-    def add(vals, ty=None, cmp=None):
-        out.append("L %s %s %d %s" % (ty or rng.choice(TYPES), cmp or rng.choice(CMPS), len(vals), " ".join(map(str, vals))))
+    def add(vals, ty=None, cmp=None, wide=False):
+        ty = ty or rng.choice(TYPES)
+        # wide: the same shape 2^26 higher - the values then need more than the 24 significant bits of a float (a routine that
+        # narrows its values merges distinct ones); not for the float-valued container, whose values must stay exact
+        if wide and ty != "f" and rng.random() < 0.15:
+            vals = [v + WIDE for v in vals]
+        out.append("L %s %s %d %s" % (ty, cmp or rng.choice(CMPS), len(vals), " ".join(map(str, vals))))
     for v in LINE_CORPUS:
         for cmp in CMPS:
             add(v, "d", cmp)
@@ -292,7 +298,7 @@ def line_cases(rng, tier):
             x, vals = 0, []
             for j in range(n):
                 x += rng.choice([-2, -1, -1, 0, 1, 1, 2]); vals.append(x)
-        add(vals)
+        add(vals, wide=True)
     # long sequences: algorithm model only (the dense certified reduction is too slow there)
     for i in range(30 if tier == "quick" else 200):
         n = rng.randrange(100, 1500)
@@ -347,7 +353,10 @@ def rect_random_cases(rng, tier):
             r, c = shape
             r = r or rng.randrange(2, 8 if c == 2 else 7)
             c = c or rng.randrange(2, 8 if r == 2 else 7)
-            out.append(rect_line("R", rng.choice("dl"), rng.choice("vi"), r, c, vals_for(r * c)))
+            v = vals_for(r * c)
+            if rng.random() < 0.15:      # the same grid 2^26 higher (see line_cases)
+                v = [x + WIDE for x in v]
+            out.append(rect_line("R", rng.choice("dl"), rng.choice("vi"), r, c, v))
     # cells at +infinity (key 1000003 in the double-valued cases): masked cells, in the interior and on the border
     for i in range(60 if q else 600):
         r, c = rng.randrange(2, 6), rng.randrange(2, 6)
